@@ -21,7 +21,7 @@ func init() {
 					}
 					return strings.HasSuffix(o.Construct, " L") || strings.Contains(o.Construct, ": goto") || strings.Contains(o.Construct, ": fallthrough")
 				}
-				return true
+				return o.Rule != "RW.NOLOSS" // loss of a part of a supported statement is C01's
 			})
 			c.min("RW.DISPATCH", 21)
 			c.min("RW.FIELDCOV", 8)
@@ -57,15 +57,19 @@ func init() {
 			c.guard("RW.TMPL.FOR", r.ruleTmplFor)
 			c.guard("RW.TMPL.COMBINESPLIT", r.ruleTmplCombineSplit)
 			c.guard("RW.TMPL.IF", r.ruleTmplStmts)
+			c.guard("RW.NOLOSS", r.ruleCover)
 			// C01 answers for the supported subset: unlabelled break/continue (labelled forms, goto and fallthrough are C12's)
 			c.keep(func(o Obligation) bool {
 				if o.Rule == "RW.BRANCHCTX" {
 					return strings.HasSuffix(o.Construct, ": break") || strings.HasSuffix(o.Construct, ": continue") || strings.HasSuffix(o.Construct, "stacks balanced")
 				}
-				return o.Rule != "SEQ.LAZY"
+				switch o.Rule {
+				case "SEQ.LAZY", "RW.DISPATCH", "RW.FIELDCOV", "RW.DEEPVISIT": // rejection and yield coverage are C12's
+					return false
+				}
+				return true
 			})
-			c.keep(func(o Obligation) bool { return true
-			})
+			c.min("RW.NOLOSS", 20)
 			c.min("RW.BRANCHCTX", 200)
 			c.min("RW.KINDTAB", 3)
 			c.min("SEQ.FOR", 6)
@@ -96,7 +100,7 @@ func init() {
 				switch o.Rule {
 				case "RW.KINDTAB":
 					return o.Construct == "combineRequired"
-				case "RW.TMPL.RETURN":
+				case "RW.TMPL.RETURN", "RW.TMPL.RANGE.TUPLE": // evaluation order of '=' range bindings is C04's
 					return false
 				case "RW.TMPL.CONSUMER":
 					return strings.Contains(o.Construct, "<Ident>") || strings.Contains(o.Construct, "nested in its own block")
@@ -146,7 +150,7 @@ func init() {
 				switch o.Rule {
 				case "RW.FILEPASSES":
 					return strings.HasPrefix(o.Construct, "order of passes")
-				case "RW.DISPATCH", "RW.DEEPVISIT", "SEQ.LAZY":
+				case "RW.DISPATCH", "RW.DEEPVISIT", "SEQ.LAZY", "RW.NOLOSS":
 					return false
 				case "RW.FIELDCOV":
 					return strings.Contains(o.Construct, "post=true")
@@ -195,7 +199,7 @@ func init() {
 			c.guard("RW.TMPL.FOR", r.ruleTmplFor)
 			c.keep(func(o Obligation) bool {
 				if o.Rule == "OPT.ORDER" {
-					return o.Construct == "file using seq"
+					return o.Construct == "file using seq" || o.Construct == "imports cleaned after the last optimisation"
 				}
 				return o.Rule != "SEQ.LAZY"
 			})
@@ -280,6 +284,7 @@ func init() {
 			c.guard("RW.BRANCHCTX", r.ruleBranchCtx)
 			c.guard("OPT.ETA", r.ruleOptEta)
 			c.guard("RW.IMPORT", r.ruleImport)
+			c.guard("RW.ALLFILES", func() { r.ruleAllFiles(true) })
 			c.guard("OPT.ORDER", r.ruleOptOrder)
 			c.guard("RW.TMPL.CONSUMER", r.ruleTmplConsumer)
 			c.guard("RW.RANGEDISPATCH", r.ruleRangeDispatch)
@@ -287,8 +292,10 @@ func init() {
 			buildBreaking := []string{"builtin", "conversion", "generic function with inferred", "types differ", "unresolved identifier", "pattern shape", "liveness"}
 			c.keep(func(o Obligation) bool {
 				switch o.Rule {
-				case "RW.FIELDCOV", "RW.DEEPVISIT":
-					return false // behaviour, C12
+				case "RW.FIELDCOV", "RW.DEEPVISIT", "RW.NOLOSS":
+					return false // behaviour, C12 / C01
+				case "RW.ALLFILES":
+					return o.Construct != "file visited twice" // byte identity, C15
 				case "RW.KINDTAB":
 					return o.Construct == "returnNormalRequired"
 				case "RW.BRANCHCTX":
@@ -326,13 +333,13 @@ func init() {
 			r := newRwRT(c)
 			c.guard("DET.MAPRANGE", func() { ruleDetScan(c) })
 			c.guard("RW.FILEPASSES", r.ruleFilePasses)
-			c.guard("RW.ALLFILES", r.ruleAllFiles)
+			c.guard("RW.ALLFILES", func() { r.ruleAllFiles(false) })
 			c.guard("DET.GENSYM", r.ruleGensym)
 			c.guard("DET.TMP", r.ruleTmpDir)
 			c.guard("RW.TMPL.RANGE", r.ruleTmplRange)
 			c.keep(func(o Obligation) bool {
 				switch o.Rule {
-				case "RW.TMPL.RANGE":
+				case "RW.TMPL.RANGE", "RW.TMPL.RANGE.TUPLE":
 					return false // shape of the loop is C04's; only the naming of the temporary matters here
 				case "RW.FILEPASSES":
 					return strings.HasPrefix(o.Construct, "per-file state")
@@ -357,7 +364,7 @@ func init() {
 			c.guard("GEN.TAG", r.ruleGoGen)
 			c.guard("DET.TMP", r.ruleTmpDir)
 			c.guard("OPT.ORDER", r.ruleOptOrder)
-			c.guard("RW.ALLFILES", r.ruleAllFiles)
+			c.guard("RW.ALLFILES", func() { r.ruleAllFiles(false) })
 			c.guard("GEN.ENV", r.ruleGenEnv)
 			c.keep(func(o Obligation) bool {
 				switch o.Rule {
